@@ -86,3 +86,15 @@ Theorem C02_nonvacuous :
   = [0; 1].
 Proof. vm_compute. reflexivity. Qed.
 Print Assumptions C02_nonvacuous.
+
+(* sender half of "unaltered": every publish carries the id and the topic/payload list of a send() call of the run - for a call
+   with an explicit state (a relay passing on what it received) the id of that state.  Nothing invented, nothing altered, nothing
+   of an earlier call sent under a later id.  With C02_payload_and_topic_map (receiver half) a payload handed to a consumer is the
+   payload some upstream send() call was given for that id and topic. *)
+From OF Require Import Proto.Sender Proto.Sender_Faithful.
+Theorem C02_publisher_sends_what_it_was_given :
+  forall nout bal req its outs mid b topics parts,
+    In (SOPub outs mid b topics parts) (snd (srun (init_sender nout bal req) its)) ->
+    exists st lazy to push t, In (SCall st lazy (Some parts) to push t) its /\ (forall m bb, st = Some (m, bb) -> m = mid).
+Proof. exact sender_publishes_what_it_was_given. Qed.
+Print Assumptions C02_publisher_sends_what_it_was_given.
